@@ -27,8 +27,29 @@ theorem C07_text_roundtrip (s rest : List Char) (hs : ∀ c ∈ s, inRange c = t
     readText (escape .canonText s ++ '<' :: rest) = .ok (s, '<' :: rest) :=
   text_roundtrip .canonText (Or.inl rfl) s ⟨hs, by simp, by simp⟩ rest
 
-/-- attribute values are written in etree's normal mode: exact for every string without a carriage
-    return (full statement: `C07_attr_cr_counterexample` shows CR is altered — known finding) -/
+/-- **attribute values**: the library writes them in etree's normal mode and then replaces every raw
+    carriage return by `&#xD;` (`crEscaper`); every string of XML characters — CR, LF, TAB, `]]>`,
+    quotes, markup — is read back exactly -/
+theorem C07_attr_roundtrip (s rest : List Char) (hs : ∀ c ∈ s, inRange c = true) :
+    readAttr (crReplace (escape .normal s) ++ '"' :: rest) = .ok (s, rest) := by
+  rw [crReplace_escape_normal]
+  exact attr_roundtrip .attrCR (Or.inr (Or.inr rfl)) s ⟨hs, by simp, by simp⟩ rest
+
+/-- the text writer leaves no raw carriage return for `crEscaper` to touch: character data is
+    unaffected by it -/
+theorem C07_text_unaffected_by_cr_escaper (s : List Char) : crReplace (escape .canonText s) = escape .canonText s := by
+  induction s with
+  | nil => rfl
+  | cons c cs ih =>
+    simp only [escape, List.flatMap_cons] at ih ⊢
+    rw [crReplace_append, ih]
+    congr 1
+    unfold crReplace escChar
+    repeat' split
+    all_goals first | rfl | simp_all
+
+/-- etree's normal mode alone (what the pinned tree and the first repair did): exact only for strings
+    without a carriage return — `C07_attr_cr_counterexample` -/
 theorem C07_attr_roundtrip_partial (s rest : List Char) (hs : ∀ c ∈ s, inRange c = true) (hcr : '\r' ∉ s) :
     readAttr (escape .normal s ++ '"' :: rest) = .ok (s, rest) :=
   attr_roundtrip .normal (Or.inl rfl) s ⟨hs, fun _ => hcr, by simp⟩ rest
@@ -48,7 +69,7 @@ theorem C07_canon_attr_counterexample :
 /-- in the canonical attribute mode everything but `>` round-trips (CR, LF, TAB included) -/
 theorem C07_canon_attr_roundtrip (s rest : List Char) (hs : ∀ c ∈ s, inRange c = true) (hgt : '>' ∉ s) :
     readAttr (escape .canonAttr s ++ '"' :: rest) = .ok (s, rest) :=
-  attr_roundtrip .canonAttr (Or.inr rfl) s ⟨hs, by simp, fun _ => hgt⟩ rest
+  attr_roundtrip .canonAttr (Or.inr (Or.inl rfl)) s ⟨hs, by simp, fun _ => hgt⟩ rest
 
 /-- the writer never emits markup for data: no `<` and no unescaped `&`-less quote in an attribute -/
 theorem C07_no_markup (m : Mode) (s : List Char) : '<' ∉ escape m s := by
@@ -63,7 +84,13 @@ theorem C07_no_markup (m : Mode) (s : List Char) : '<' ∉ escape m s := by
 
 /-- obligations on the current source: the writer settings and their use at every serialisation site -/
 theorem C07_writer_mode : Facts.xmlWriteSettingsCanonical = (true, false) := by decide
+/-- every serialisation site goes through the package's writer, never through etree's `WriteTo*` directly -/
 theorem C07_every_site_uses_it : Facts.xmlWriteSites.all (·.2) = true ∧ Facts.xmlWriteSites.length = 11 := by decide
+/-- the package's writer installs the write settings and wraps the destination in `crEscaper`, which
+    replaces carriage returns by `&#xD;` (the `crReplace` of the model) -/
+theorem C07_package_writer :
+    Facts.writeXMLBody = ["doc.WriteSettings = xmlWriteSettings", "_, err := doc.WriteTo(crEscaper{w})", "return err"] ∧
+    Facts.crEscaperReplace = ["bytes.ReplaceAll(p, []byte{'\\r'}, []byte(\"&#xD;\"))"] := by decide
 theorem C07_extraction_clean : Facts.extractionFailures = [] := by decide
 
 /-! ### 2. structure -/
